@@ -153,6 +153,7 @@ class NativeMaster:
         self.i_flush = ix(port.flush)
         self.rready = Pattern(rready)
         self.on_cmd, self.on_wdata, self.on_rdata = on_cmd, on_wdata, on_rdata
+        self.on_offer = None
         self.max_reads = max_reads
         self.k = 0                  # next op index
         self.cur = None             # op being offered
@@ -223,7 +224,9 @@ class NativeMaster:
                 poke(self.i_flush, 0)
         if self.cur is None and not self.done_issuing:
             op = self.ops[self.k]
-            if self.wait > 0:
+            if op.get("sync") and (self.wq or self.reads_out):
+                pass        # "sync" op: everything before it has retired before its delay starts
+            elif self.wait > 0:
                 self.wait -= 1
             elif "flush" in op:
                 poke(self.i_flush, 1)
@@ -238,6 +241,8 @@ class NativeMaster:
             else:
                 self.cur = op
                 self.cv = 1
+                if self.on_offer:
+                    self.on_offer(op)
                 if op["we"]:
                     self._queue_data(op)
                 poke(self.i_cv, 1)
